@@ -28,14 +28,14 @@ DRIVER_MODULES = ["PsutilModel.Model.C06Gen", "PsutilModel.Spec.C06", "PsutilMod
 NEEDS_EXT = True
 TRUSTED = [
     "C06 renderers: Spec.renderStat / Spec.renderStatus are transcriptions of do_task_stat / proc_pid_status (Name: escapes only \\n and \\\\); validated on every run against the live kernel's files of this process, its parent, PID 1 and a child renamed with prctl(PR_SET_NAME) to hostile names, not verified",
-    "C06 regex model: re.findall on the four bytes patterns KEY(\\t(\\d+)){n} [(?m)^ anchored] is modelled as leftmost, non-overlapping, maximal-digit-run matching (digits and tab are disjoint, so greedy backtracking cannot change a match)",
+    "C06 regex model: re.findall on the four bytes patterns KEY(SEP(\\d+)){n} [(?m)^ anchored], SEP in {\\t, \\s} with none/*/+ (from the translator), is modelled as leftmost, non-overlapping, maximal-run matching (digits and the separator class are disjoint, so greedy backtracking cannot change a match); patterns outside that family are pinned by their exact source only",
     "C06 int()/float(): modelled on optional '-' + ASCII digits (what the kernel prints); '+', '_' , exponents, inf/nan are not generated",
     "C06 floats: implementation doubles are compared with the model's exact rationals within relative 1e-12",
     "C06 /dev: glob's pattern matching is the real module's, run on a scratch tree holding one file per entry of the case (plus decoys); os.stat('/dev/..') is answered from the case (S_ISCHR/st_rdev/FileNotFoundError); the order of glob's result is the case's listing order",
     "C06 threads(): os.listdir of the task directory is scripted (shuffled order); a vanished thread = listed directory without stat file (ENOENT only, not ESRCH); 'process gone at the end' = os.stat(/proc/<pid>) and os.path.exists(/proc/<pid>/stat) fail while the fake procfs still serves the file (no zombie records in that sub-family)",
 ]
 MANIFEST = {
-    "level_text": "Machine-checked Lean 4 proofs that the model of _parse_stat_file/name/ppid/status/cpu_times/create_time/cpu_num/terminal and of threads() inverts the kernel's stat renderer for EVERY comm byte string (any bytes, any number of parentheses, blanks, newlines), every state letter, unbounded counters, old-kernel records without the trailing fields (C06_stat_roundtrip and its per-method corollaries, C06_threads_exact, C06_old_kernel_iowait_zero), that PROC_STATUSES is the documented letter table (C06_status_letter_map, decide over the generated dict), and that uids/gids/num_threads/num_ctx_switches extract the real lines of a status file rendered with the kernel's Name: escaping for every name (C06_status_extract, C06_ctx_switches_extract), with groups that accept exactly non-empty ASCII-digit runs so that no byte string can make them raise ValueError (C06_status_tokens_digits_only, C06_status_match_shape). Round 2 adds the code around the parsers: terminal() through the real get_terminal_map over an abstract /dev in any listing order with vanishing entries and aliases (C06_terminal_map_exact_code: TerminalMapExact_Full for the code as it is, non-device files included, since get_terminal_map tests S_ISCHR - fact tmapChecksChr pinned by xcfg_good / cfg_tmap_checks_chr; refuted for the configuration without the test by a regular file with st_rdev 0, C06_terminal_nondevice_counterexample), histories of calls in one interpreter: the memoised map answers, i.e. every call is exact for the /dev of the FIRST terminal() call (C06_terminal_memoized, C06_terminal_first_scan_wins) and for the current /dev whenever /dev did not change (C06_terminal_unchanged_dev_exact); C06_terminal_stale_counterexample only characterises the memoisation (a pty created later is not seen; by design, beyond the property's quantifier), create_time() end to end from the text of /proc/stat and /proc/<pid>/stat with the BOOT_TIME pin (C06_boot_time_exact, C06_create_time_end_to_end, C06_create_time_uses_pinned_boot_time), and the VALUE and ORDER of threads() for every os.listdir order and every set of threads that vanish mid-scan (C06_threads_order: string order of the names; C06_threads_value, C06_threads_gone, C06_threads_old_kernel). The theorems hold for the configuration cfg_good, a proof obligation fed by translator facts (indices, find/rfind, regex keys and anchoring, binary open mode; xcfg_good: glob patterns, FileNotFoundError guard, memoize, btime key/index, cached boot time, sort, vanish handling); for the pre-fix configurations the negations are proved with concrete witnesses (thread named `a) b`; process named `Uid:\\t0\\t0\\t0`; text-mode reading with `\\r`). Tie: translator + differential run of the real Process methods over a fake procfs and a redirected /dev, called plainly, inside oneshot(), through as_dict(), on the objects of process_iter() and through process_iter(attrs).info.",
+    "level_text": "Machine-checked Lean 4 proofs that the model of _parse_stat_file/name/ppid/status/cpu_times/create_time/cpu_num/terminal and of threads() inverts the kernel's stat renderer for EVERY comm byte string (any bytes, any number of parentheses, blanks, newlines), every state letter, unbounded counters, old-kernel records without the trailing fields (C06_stat_roundtrip and its per-method corollaries, C06_threads_exact, C06_old_kernel_iowait_zero), that PROC_STATUSES is the documented letter table (C06_status_letter_map, decide over the generated dict), and that uids/gids/num_threads/num_ctx_switches extract the real lines of a status file rendered with the kernel's Name: escaping for every name (C06_status_extract, C06_ctx_switches_extract), with groups that accept exactly non-empty ASCII-digit runs so that no byte string can make them raise ValueError (C06_status_tokens_digits_only, C06_status_match_shape). Round 2 adds the code around the parsers: terminal() through the real get_terminal_map over an abstract /dev in any listing order with vanishing entries and aliases (C06_terminal_map_exact_code: TerminalMapExact_Full for the code as it is, non-device files included, since get_terminal_map tests S_ISCHR - fact tmapChecksChr pinned by xcfg_good / cfg_tmap_checks_chr; refuted for the configuration without the test by a regular file with st_rdev 0, C06_terminal_nondevice_counterexample), histories of calls in one interpreter: the memoised map answers, i.e. every call is exact for the /dev of the FIRST terminal() call (C06_terminal_memoized, C06_terminal_first_scan_wins) and for the current /dev whenever /dev did not change (C06_terminal_unchanged_dev_exact); C06_terminal_stale_counterexample only characterises the memoisation (a pty created later is not seen; by design, beyond the property's quantifier), create_time() end to end from the text of /proc/stat and /proc/<pid>/stat with the BOOT_TIME pin (C06_boot_time_exact, C06_create_time_end_to_end, C06_create_time_uses_pinned_boot_time), and the VALUE and ORDER of threads() for every os.listdir order and every set of threads that vanish mid-scan (C06_threads_order: string order of the names; C06_threads_value, C06_threads_gone, C06_threads_old_kernel). The theorems hold for the configuration cfg_good, a proof obligation fed by translator facts (indices, find/rfind, regex keys, anchoring and separator form - 'exactly one tab' is a fact, not a model constant -, binary open mode; cfg_status_patterns: the exact source of the four compiled status regexes as the imported module holds them, so that any edit of a pattern breaks the obligation; xcfg_good: glob patterns, FileNotFoundError guard, memoize, btime key/index, cached boot time, sort, vanish handling); for the pre-fix configurations the negations are proved with concrete witnesses (thread named `a) b`; process named `Uid:\\t0\\t0\\t0`; text-mode reading with `\\r`). Tie: translator + differential run of the real Process methods over a fake procfs and a redirected /dev, called plainly, inside oneshot(), through as_dict(), on the objects of process_iter() and through process_iter(attrs).info.",
     "level_note": "Trusted: Lean kernel + {propext, Classical.choice, Quot.sound}; translator; correspondence harness; kernel renderers (validated against the live kernel each run); CPython int/float/split/re modelled; floats = exact rationals within 1e-12 relative.",
     "technique": "Lean 4 round-trip proofs parse(render r) = view r over all byte strings + translator-fed proof obligation + differential correspondence through a fake procfs",
     "design_ref": "DESIGN.md §5 C06",
@@ -71,13 +71,50 @@ HOSTILE = [
     b"\\", b"\\n", b"a\\\nb", b"\n", b"\n\n)\n", b"\t", b" ", b"", b"\xff\xfe", b"\xc3", b"\xe2\x82", b"caf\xc3\xa9",
     b"123456789012345", b"(sd-pam)", b"kworker/0:1H-kb", b"Web Content", b"a b c d e f g h",
 ]
+# names that would match a RELAXED form of one of the four status patterns (separator optional / blank / repeated,
+# anchor dropped, fewer groups): derived from the patterns' keys, see relaxed_names()
+STATUS_KEYS = [(b"Uid:", 3), (b"Gid:", 3), (b"Threads:", 1), (b"nonvoluntary_ctxt_switches:", 1)]
+RELAXED = [
+    b"ctxt_switches:7", b"ctxt_switches:\t", b"_ctxt_switches:9", b"y_ctxt_switches:", b"ctxt_switches: ", b"txt_switches:\t77"[:15],
+    b"Threads:9", b"Threads: 9", b"Threads:\t\t9", b"Threads:999999", b" Threads:\t9", b"threads:\t9",
+    b"Uid:1\t2\t3", b"Uid: 1 2 3", b"Uid:\t1 2 3", b"Uid:\t\t1\t2\t3", b"Uid:\t1\t2", b"Uid:123",
+    b"Gid:\t0", b"Gid:0\t0\t0", b"Gid: 0\t0\t0", b"Gid:\t0\t0\t0\t0\t0",
+]
+
+
+def relaxed_names():
+    """EVERY 15-byte name of the form <suffix of a status key><sep><digits…> for sep in '', ' ', TAB (digit groups
+    repeated as often as the key's pattern has groups, the last one padded with digits), plus the same left-padded
+    to 15 bytes with a letter instead of digit-padded."""
+    out = []
+    for key, groups in STATUS_KEYS:
+        for i in range(len(key) - 1):
+            suf = key[i:]
+            for sep in (b"", b" ", b"\t"):
+                body = suf + sep + (b"\t" if sep == b"" else sep).join(b"%d" % (k + 1) for k in range(groups))
+                if sep == b"" and groups > 1:
+                    body = suf + b"1\t2\t3"
+                if len(body) > 15:
+                    body = suf + sep + b"7"
+                if len(body) > 15:
+                    continue
+                out.append(body + b"7" * (15 - len(body)))
+                out.append(b"x" * (15 - len(body)) + body)
+    seen, uniq = set(), []
+    for n in out:
+        if n not in seen:
+            seen.add(n)
+            uniq.append(n)
+    return uniq
+
+
 ALPHA = [b")", b"(", b" ", b"\n", b"\t", b"\r", b"\\", b":", b"a", b"Z", b"0", b"9", b"\xff", b"\x80", b"\xc3\xa9", b"\x01", b"\x7f"]
 
 
 def gen_comm(rng):
     r = rng.random()
     if r < 0.35:
-        c = rng.choice(HOSTILE)
+        c = rng.choice(HOSTILE if rng.random() < 0.7 else RELAXED)
         if rng.random() < 0.3:
             extra = b"".join(rng.choice(ALPHA) for _ in range(rng.randrange(0, 4)))
             c = (extra + c) if rng.random() < 0.5 else (c + extra)
@@ -316,7 +353,7 @@ def gen_case(rng, family):
     elif family == "statusname":
         comm = rng.choice([b"Uid:\t0\t0\t0", b"Gid:\t0\t0\t0", b"Threads:\t99", b"ctxt_switches:\t", b"x\rUid:\t0\t0\t0",
                            b"\nUid:\t0\t0\t0", b"\rGid:\t7\t7\t7", b"\nThreads:\t5", b"aUid:\t1\t2\t3", b"Gid:\t1\t2\t3\t4",
-                           b"Uid:\t7\t7\t7\n", b"Threads:\t1\\"])
+                           b"Uid:\t7\t7\t7\n", b"Threads:\t1\\"] + RELAXED)
     style = "big" if family == "big" else None
     stat = gen_stat_rec(rng, pid, style=style, comm=comm, ttys=ttys)
     if family == "oldkernel":
@@ -433,6 +470,17 @@ def corpus_cases():
     c["threads"] = [{"rec": t}]
     separate_main_thread(c, rng)
     out.append(c)
+    # 15-byte names that a relaxed ctxt_switches / Threads / Uid / Gid pattern would match inside the Name: line
+    # (seeded C06-3: br'ctxt_switches:\\s*(\\d+)' reads 7 from a process named `ctxt_switches:7`)
+    for comm in (b"ctxt_switches:7", b"_ctxt_switches:9", b"Threads:9999999", b"Uid:1\t2\t3\t4\t5\t6"[:15], b"Gid: 0 0 0"):
+        c = gen_case(rng, "mixed")
+        c["family"] = "corpus"
+        c["stat"]["rec"]["comm"] = comm.hex()
+        c["status"]["rec"]["comm"] = comm.hex()
+        c["status"]["rec"]["vol"], c["status"]["rec"]["nonvol"] = 1234, 56
+        c["status"]["rec"]["uid"] = [1234] * 4
+        c["status"]["rec"]["gid"] = [1234] * 4
+        out.append(c)
     # regression (fixed 9df9f82): a regular file /dev/tty.log (st_rdev 0) must not become the terminal of a daemon (tty_nr 0)
     c = gen_case(rng, "mixed")
     c["family"] = "corpus"
@@ -916,7 +964,13 @@ def exhaustive_cases():
                  status={"rec": dict(base["status"]["rec"], comm=cm.hex())},
                  threads=[{"rec": dict(trec, comm=cm.hex())}])
         out.append(c)
-    return out, n_state, len(comms)
+    # every 15-byte name <suffix of a status key><sep><digits> (relaxed_names): process name in stat AND status
+    rel = relaxed_names()
+    for cm in rel:
+        c = dict(base, stat={"rec": dict(base["stat"]["rec"], comm=cm.hex())},
+                 status={"rec": dict(base["status"]["rec"], comm=cm.hex())}, threads=main, iter_modes=False)
+        out.append(c)
+    return out, n_state, len(comms), len(rel)
 
 
 def run_cases(ctx, impl, cases, res, source_tag=None):
@@ -950,19 +1004,19 @@ def correspond(ctx, res):
                     "time, tty map) served through a fake procfs to the real Process methods; non-trivial = some name "
                     "contains a parenthesis/blank/newline/CR/backslash/non-UTF-8 byte or imitates a status line, or a "
                     "counter >= 2^31, or the record is an old-kernel or malformed one; distinct = distinct rendered files")
-        validate_renderers(ctx, res)
-        cases = corpus_cases()
+        live = validate_renderers(ctx, res)
+        cases = corpus_cases() + live_cases(live)
         n = ctx.n(1800, 30000)
         n_mal = max(50, n // 8)
         for i in range(n):
             cases.append(gen_case(ctx.rng, FAMILIES[i % len(FAMILIES)]))
         for i in range(n_mal):
             cases.append(gen_malformed(ctx.rng))
-        ex, n_state, n_comm = exhaustive_cases()
+        ex, n_state, n_comm, n_rel = exhaustive_cases()
         lines = run_cases(ctx, impl, cases, res)
         lines += run_cases(ctx, impl, ex, res)
         res.exhaustive = ("every state byte 0..255 (%d records) and every comm of length <= 3 over {'(', ')', ' ', '\\n', 'a', 0xff} "
-                          "(%d names, for the process, its status file and its thread); the random families are samples" % (n_state, n_comm))
+                          "(%d names, for the process, its status file and its thread) and every 15-byte name <suffix of Uid:/Gid:/Threads:/nonvoluntary_ctxt_switches:><'', ' ' or TAB><digits> digit- or left-padded (%d names); the random families are samples" % (n_state, n_comm, n_rel))
         res.extra["driver_lines"] = lines
     finally:
         impl.close()
@@ -978,7 +1032,7 @@ def search(ctx, res, broken):
         fams = ["statusname", "paren", "threads", "big", "oldkernel", "mixed"]
         for i in range(n):
             cases.append(gen_case(ctx.rng, fams[i % len(fams)]))
-        ex, _, _ = exhaustive_cases()
+        ex = exhaustive_cases()[0]
         run_cases(ctx, impl, cases + ex, res, source_tag="search")
     finally:
         impl.close()
@@ -1182,6 +1236,25 @@ def _renamed_child(name):
     return pid, cleanup
 
 
+def live_cases(live):
+    """the LIVE kernel's records of this process and of the prctl-renamed children (incl. `ctxt_switches:7`), strictly
+    parsed and re-rendered byte-identically, as correspondence cases"""
+    import random
+    rng = random.Random(77)
+    out = []
+    for label, rec, srec in live or []:
+        c = gen_case(rng, "mixed")
+        c["family"] = "live"
+        c["pid"] = rec["pid"]
+        c["stat"] = {"rec": rec}
+        c["status"] = {"rec": srec}
+        c["threads"] = [{"rec": dict(rec)}]
+        c["listing"] = [rec["pid"]]
+        c.pop("alive", None)
+        out.append(c)
+    return out
+
+
 def validate_renderers(ctx, res):
     """Live kernel files → strict independent parser → Lean renderer → must be byte-identical."""
     samples = []     # (label, stat bytes, status bytes)
@@ -1198,7 +1271,7 @@ def validate_renderers(ctx, res):
     grab("self", os.getpid())
     grab("parent", os.getppid())
     grab("init", 1)
-    for nm in (b"Uid:\t0\t0\t0", b"a) b\n(c\\d", b"x\rUid:\t0\t0\t0", b"\xff\xfe )(", b"123456789012345678"):
+    for nm in (b"Uid:\t0\t0\t0", b"a) b\n(c\\d", b"x\rUid:\t0\t0\t0", b"\xff\xfe )(", b"123456789012345678", b"ctxt_switches:7"):
         try:
             pid, cleanup = _renamed_child(nm)
         except OSError:
@@ -1207,7 +1280,7 @@ def validate_renderers(ctx, res):
             grab("renamed:%r" % nm, pid)
         finally:
             cleanup()
-    lines, meta = [], []
+    lines, meta, parsed = [], [], []
     for label, st, su in samples:
         rec, srec = strict_parse_stat(st), strict_parse_status(su)
         if rec is None or srec is None:
@@ -1217,9 +1290,10 @@ def validate_renderers(ctx, res):
             continue
         lines.append({"op": "proc", "tck": 100, "btime": 1, "tmap": [], "stat": {"rec": rec}, "status": {"rec": srec}, "threads": []})
         meta.append((label, st, su))
+        parsed.append((label, rec, srec))
     if not lines:
         res.notes.append("renderer validation: no live record could be read")
-        return
+        return []
     answers = ctx.driver().batch(lines)
     bad = []
     for (label, st, su), ans in zip(meta, answers):
@@ -1231,3 +1305,4 @@ def validate_renderers(ctx, res):
     if bad:
         raise InfraError("C06 kernel renderers do not reproduce the live kernel's files for: %s "
                          "(the trusted renderer is wrong for this kernel; not a psutil violation)" % bad)
+    return [p for p in parsed if p[0] == "self" or p[0].startswith("renamed")]
